@@ -33,7 +33,7 @@ DEFAULT = {"float_type": "float64", "decimals": 3, "atol": 1e-3, "rtol": 0.0, "a
            "logger": "L0", "factory_manager": "F0"}
 FLOAT_TYPES = {"float64": np.float64, "float32": np.float32, "float16": np.float16, "float": float}
 OBS = ["str", "close", "dtype", "alias", "fm", "logger", "rule", "fll", "vars", "arr", "fld", "fld_late", "mkexp", "ruletext",
-       "termparams", "tofloat", "xy", "pyexp", "fll_p", "imp", "func"]
+       "termparams", "tofloat", "xy", "pyexp", "fll_p", "imp", "func", "func_op"]
 
 _POOL: dict[str, object] = {}
 
@@ -64,6 +64,9 @@ def pool(code: str):
         f1.hedge.constructors["quite"] = Quite
         f1.term.constructors["Tri2"] = Tri2
         f1.function.objects["twice"] = fl.Function.Element("twice", "Twice", "Function", _twice, arity=1, precedence=100)
+        div = f1.function.objects["/"]
+        f1.function.objects["//"] = fl.Function.Element("//", "Floor division", "Operator", np.floor_divide, arity=2,
+                                                        precedence=div.precedence, associativity=div.associativity)
         _POOL["F1"] = f1
         _POOL["F2"] = fl.FactoryManager()
     return _POOL[code]
@@ -478,6 +481,13 @@ class Interp:
         if what == "func":
             try:
                 ok = float(fl.Function.create("f", "twice(x)").membership(0.25)) == 0.5
+            except SyntaxError:
+                ok = False
+            return ok, m["factory_manager"] == "F1"
+        if what == "func_op":
+            # an operator that exists only in F1, written without spaces: the tokeniser must use the *current* operator set
+            try:
+                ok = float(fl.Function.create("g", "7//2").membership(0.0)) == 3.0
             except SyntaxError:
                 ok = False
             return ok, m["factory_manager"] == "F1"
